@@ -12,7 +12,10 @@
 (*                to a generation                                          *)
 (*   Fail         Cache.recover (loader error or panic): entry unmapped,   *)
 (*                waiters released                                         *)
-(*   Rotate, Cleanup (markStale + every bucket's Cleanup), CleanEmpty      *)
+(*   Rotate, Cleanup (markStale + every bucket's Cleanup; SplitCleanup =   *)
+(*                TRUE: MarkStale and one CleanBucket per bucket as steps  *)
+(*                of their own, with the other goroutines in between),     *)
+(*                CleanEmpty                                               *)
 (*                (CleanEmptyGenerations), Release (Cache.Release),         *)
 (*                ReleaseBuckets (Cleaner.ReleaseBuckets)                  *)
 (* FixSave / FixRecover / FixRelease = TRUE describe the code after the    *)
@@ -29,7 +32,7 @@
 (***************************************************************************)
 EXTENDS Integers, Sequences, FiniteSets, TLC, Json
 
-CONSTANTS C, K, T, MaxE, MaxG, MaxOps, Limit, FixSave, FixRecover, FixRelease
+CONSTANTS C, K, T, MaxE, MaxG, MaxOps, Limit, FixSave, FixRecover, FixRelease, SplitCleanup
 
 VARIABLES payload,   \* [cache -> [key -> entry id or 0]]
           ent,       \* entry id -> [state, gen, size, deleted, c, k, val]
@@ -39,8 +42,9 @@ VARIABLES payload,   \* [cache -> [key -> entry id or 0]]
           released,  \* set of released caches
           pc,        \* caller -> [st, e, c, k]
           got,       \* caller -> last value returned ("" none)
+          pending,   \* SplitCleanup: buckets the running Cleaner.Cleanup has still to visit
           hist
-vars == <<payload, ent, nextE, gens, gsize, stale, cur, nextG, buckets, released, pc, got, hist>>
+vars == <<payload, ent, nextE, gens, gsize, stale, cur, nextG, buckets, released, pc, got, pending, hist>>
 
 Idle == [st |-> "idle", e |-> 0, c |-> 0, k |-> 0]
 H(op, a, b, c) == hist' = Append(hist, [op |-> op, a |-> a, b |-> b, c |-> c])
@@ -54,7 +58,7 @@ SeqSet(s) == {s[i] : i \in 1..Len(s)}
 Init == /\ payload = [c \in C |-> [k \in K |-> 0]] /\ ent = [e \in {} |-> 0] /\ nextE = 1
         /\ gens = <<1>> /\ gsize = [g \in 1..MaxG |-> 0] /\ stale = {} /\ cur = 1 /\ nextG = 2
         /\ buckets = [i \in 1..Cardinality(C) |-> i] /\ released = {}
-        /\ pc = [t \in T |-> Idle] /\ got = [t \in T |-> 0] /\ hist = <<>>
+        /\ pc = [t \in T |-> Idle] /\ got = [t \in T |-> 0] /\ pending = <<>> /\ hist = <<>>
 
 \* ---- callers
 GetLock(t, c, k) ==
@@ -108,7 +112,7 @@ Fail(t) ==
   /\ H("fail", t, 0, 0)
 
 \* ---- cleaner (one goroutine)
-Busy == \E t \in T : pc[t].st # "idle"
+Busy == (\E t \in T : pc[t].st # "idle") \/ pending # <<>>
 Rotate == /\ Ops /\ gsize[cur] >= 1 /\ nextG <= MaxG
           /\ cur' = nextG /\ gens' = Append(gens, nextG) /\ nextG' = nextG + 1
           /\ UNCHANGED <<payload, ent, nextE, gsize, stale, buckets, released, pc, got>>
@@ -138,6 +142,33 @@ Cleanup ==
                     THEN [ent[e] EXCEPT !.deleted = TRUE] ELSE ent[e]]
   /\ UNCHANGED <<nextE, gsize, buckets, released, pc, got>>
   /\ H("cleanup", 0, 0, 0)
+
+\* SplitCleanup = TRUE: the same pass at the grain of the code - Cleaner.Cleanup takes the bucket list and marks the
+\* generations stale under the cleaner's lock (MarkStale), then calls every bucket's Cleanup, each under that cache's
+\* own lock (CleanBucket); lookups, loader ends and Cache.Release of other goroutines come in between (the cleaner's
+\* other operations do not: they belong to the same goroutine).  A lookup that hits an entry of a stale generation
+\* before its bucket is visited moves it to the current generation: it survives and is accounted again.
+MarkStale ==
+  /\ Ops /\ pending = <<>> /\ Accounted > Limit
+  /\ LET need == Accounted - Limit
+         r == Pop(gens, 0, need)
+         lastToo == r[2] < need IN
+     /\ (lastToo => nextG <= MaxG)
+     /\ stale' = (IF lastToo THEN stale \cup SeqSet(gens) ELSE stale \cup (SeqSet(gens) \ SeqSet(r[1])))
+     /\ IF lastToo THEN (cur' = nextG /\ nextG' = nextG + 1 /\ gens' = <<nextG>>)
+                   ELSE (gens' = r[1] /\ UNCHANGED <<cur, nextG>>)
+  /\ pending' = buckets
+  /\ UNCHANGED <<payload, ent, nextE, gsize, buckets, released, pc, got>>
+  /\ H("markstale", 0, 0, 0)
+CleanBucket ==
+  /\ pending # <<>>
+  /\ LET c == Head(pending) IN
+     /\ payload' = [payload EXCEPT ![c] = [k \in K |-> IF payload[c][k] # 0 /\ ent[payload[c][k]].gen \in stale THEN 0 ELSE payload[c][k]]]
+     /\ ent' = [e \in DOMAIN ent |-> IF ent[e].c = c /\ payload[c][ent[e].k] = e /\ ent[e].gen \in stale
+                                       THEN [ent[e] EXCEPT !.deleted = TRUE] ELSE ent[e]]
+     /\ H("cleanbucket", c, 0, 0)
+  /\ pending' = Tail(pending)
+  /\ UNCHANGED <<nextE, gens, gsize, stale, cur, nextG, buckets, released, pc, got>>
 
 CleanEmpty ==
   /\ Ops /\ Len(gens) > 1
@@ -171,8 +202,11 @@ ReleaseBuckets ==
   /\ UNCHANGED <<payload, ent, nextE, gens, gsize, stale, cur, nextG, released, pc, got>>
   /\ H("releasebuckets", 0, 0, 0)
 
-Next == \/ \E t \in T : (\E c \in C, k \in K : GetLock(t, c, k)) \/ WaitDone(t) \/ Save(t) \/ Fail(t)
-        \/ Rotate \/ Cleanup \/ CleanEmpty \/ ReleaseBuckets \/ (\E c \in C : Release(c))
+Next == \/ /\ UNCHANGED pending
+           /\ \/ \E t \in T : (\E c \in C, k \in K : GetLock(t, c, k)) \/ WaitDone(t) \/ Save(t) \/ Fail(t)
+              \/ (\E c \in C : Release(c))
+              \/ (pending = <<>> /\ (Rotate \/ CleanEmpty \/ ReleaseBuckets \/ (~SplitCleanup /\ Cleanup)))
+        \/ (SplitCleanup /\ (MarkStale \/ CleanBucket))
 Spec == Init /\ [][Next]_vars
 
 \* ---------------------------------------------------------------- properties (C18)
@@ -188,7 +222,7 @@ NoPoison == \A c \in C, k \in K : payload[c][k] # 0 => ent[payload[c][k]].state 
 \* a cleaning pass without concurrent lookups brings the accounted size under the limit
 CleanupBoundsSize == [][(hist' # hist /\ hist'[Len(hist')].op = "cleanup" /\ ~Busy) => Accounted' <= Limit]_vars
 
-View == <<payload, ent, nextE, gens, gsize, stale, cur, nextG, buckets, released, pc, got>>
+View == <<payload, ent, nextE, gens, gsize, stale, cur, nextG, buckets, released, pc, got, pending>>
 EmitEdge == hist' = hist \/ PrintT(<<"CASE", ToJson([hist |-> hist'])>>)
 \* simulation: one schedule per finished trace
 EmitEnd == Len(hist) < MaxOps \/ PrintT(<<"CASE", ToJson([hist |-> hist])>>)
